@@ -899,6 +899,15 @@ example : ∀ c rest, c < 7 → toyImpl.readFrom (toyImpl.toBytes c ++ rest) = s
   have h3 : ¬ (7 ≤ c) := by omega
   simp [FieldImpl.readFrom, FieldImpl.toBytes, toyImpl, leBytes, ofLeBytes, FieldImpl.tryFrom, h1, h2, h3]
 
+/-- the root hypothesis of `quad_eval_root` / `cube_eval_root` is satisfiable: the quotient ring itself with `φ` -/
+example : ((PQ2.φ : PQ2 ℤ 1 (-2)) ^ 2 = PQ2.C 1 * PQ2.φ + PQ2.C (-2)) ∧
+    ((PQ3.φ : PQ3 ℤ (-2) (-2)) ^ 3 = PQ3.C (-2) * PQ3.φ + PQ3.C (-2)) := by
+  constructor
+  · have := PQ2.φ_root (R := ℤ) (s := 1) (t := -2)
+    linear_combination this
+  · have := PQ3.φ_root (R := ℤ) (s := -2) (t := -2)
+    linear_combination this
+
 end Examples
 
 end WinterProofs.C08
